@@ -114,7 +114,9 @@ class C06(StrCheck):
     rule = ("all ordered pairs of strings over the alphabet (len <= 2 quick / <= 3 thorough) through ~45 comparison entry points; "
             "compare_n for every prefix limit incl. 2^31..SIZE_MAX; static pointer+length compare with claimed sizes up to SIZE_MAX "
             "(only min bytes touched); a 43x43 (quick) sign matrix checked for antisymmetry/transitivity/kernel; to_upper/to_lower on all "
-            "256 bytes; seeded random pairs up to 24 bytes over all byte values")
+            "256 bytes; seeded random pairs up to 24 bytes over all byte values; wide buffers on units that are not bytes (all pairs of "
+            "sequences over 16- and 32-bit boundary units); hashes of reassigned objects; ==, !=, compare() between the objects of "
+            "the buffer-pool histories (moved-from, cleared, reassigned) incl. a fresh empty buffer and a fresh copy")
 
     def models(self, tier):
         return [("MC_Compare", "MC_Compare" if tier == "quick" else "MC_Compare_full")]
